@@ -86,6 +86,14 @@ def main():
             violations.append({"kind": "correspondence", "what": "Base.NX model differs from networkx on %d operation sequence(s)" % len(nx_fails),
                                "correspondence": "Base.NX ~ networkx.Graph (insertion orders)", "case": nx_fails[0], "failing_input": False})
 
+    if model_ok and getattr(mod, "NX_TIE_MULTI", False):
+        import nxtie_multi
+        n_nx, nx_fails = nxtie_multi.run(seed, 150 if tier == "quick" else 2000)
+        notes.append("networkx MultiGraph model tie: %d operation sequences, %d disagreements" % (n_nx, len(nx_fails)))
+        if nx_fails:
+            violations.append({"kind": "correspondence", "what": "Base.NXMulti model differs from networkx on %d operation sequence(s)" % len(nx_fails),
+                               "correspondence": "Base.NXMulti ~ networkx.MultiGraph (insertion orders, keys)", "case": nx_fails[0], "failing_input": False})
+
     # ---- 4. verdict -------------------------------------------------------------------
     known, fixed = lib.load_known_findings()
     known = [k for k in known if k.get("property") == pid]
@@ -105,7 +113,7 @@ def main():
         # a known finding is announced on every run while its witness still fails
         still = mod.known_witness_fails(k) if hasattr(mod, "known_witness_fails") else bool(known_hit.get(k["id"]))
         if still:
-            print("KNOWN-FINDING: property=%s %s" % (pid, k["text"]))
+            print("KNOWN-FINDING: %s" % k["text"])
     # prefer violations that carry a failing input
     any_input = [v for v in reported if v.get("failing_input")]
     rc = 0
